@@ -258,6 +258,31 @@ def load(spec, rec, source=None, cls_suffix=""):
 
 def unload(spec, cls_suffix=""):
     sys.modules.pop(f"vmon_dyn_{spec['uid']}{cls_suffix}", None)
+    release_library_caches()
+
+
+def release_library_caches(prefixes=("vmon_", "<")):
+    """Generated classes are kept alive by two process-global tables of the library (class registry,
+    signature cache). Workers create tens of thousands of classes: drop our entries so that the heap
+    (and with it every GC pass) does not grow with the number of scenarios. Private names; skipped
+    silently when they are gone."""
+    try:
+        from statemachine import registry
+
+        reg = getattr(registry, "_REGISTRY", None)
+        if isinstance(reg, dict):
+            for k in [k for k, v in reg.items() if str(getattr(v, "__module__", "")).startswith(prefixes)]:
+                del reg[k]
+    except Exception:  # noqa: BLE001
+        pass
+    try:
+        from statemachine.signature import SignatureAdapter
+
+        clear = getattr(SignatureAdapter.from_callable, "clear_cache", None)
+        if clear is not None:
+            clear()
+    except Exception:  # noqa: BLE001
+        pass
 
 
 def provider_objects(spec, mod, cls_suffix=""):
